@@ -382,6 +382,10 @@ func minimallyEncode(data []byte) []byte {
 		return data
 	}
 
+	// The bytes may be shared with other stack items or with the script being executed,
+	// so the trimming below works on a copy.
+	data = append([]byte(nil), data...)
+
 	for i := len(data) - 1; i > 0; i-- {
 		if data[i-1] != 0 {
 			if data[i-1]&0x80 != 0 {
